@@ -83,7 +83,7 @@ func request() *sev.SnpEndorsementRequest {
 type passDecider struct{}
 
 func (passDecider) Decide(_ string, _ int, natural string) string { return natural }
-func (passDecider) OthersBefore(string) int                        { return 0 }
+func (passDecider) OthersBefore(string) int                       { return 0 }
 
 // oldEndorsement is a genuinely signed endorsement of imgOld (the pre-existing file of exists0).
 func oldEndorsement() ([]byte, error) {
@@ -161,7 +161,6 @@ func runRaw(cfg Cfg, d Decider, img []byte, head map[string][]byte) *Obs {
 	}
 	return o
 }
-
 
 // runVF calls endorse.VirtualFirmware, captures panic / stdout, and completes the log.
 func runVF(ctx context.Context, cfg Cfg, w *World, o *Obs) {
